@@ -11,9 +11,13 @@ Tie: correspondence.  Generated cells (acyclic include graphs with overlaps and 
 Witness search: the property itself (closure by an independent BFS in this file, set preservation,
      no duplicate / covered member, twice = once) is evaluated on the implementation's outputs.
 """
+import ast
+import copy
 import json
+import os
+import time
 
-from lib.vcommon import coq_list, coq_opt, coq_str, coq_z
+from lib.vcommon import REPO, coq_list, coq_opt, coq_str, coq_z
 
 GROUP_NAMES = ["g1", "g2", "g3", "g10", "g11", "g20", "dend_1", "dend_2", "dend_12", "axon_3", "axon_21",
                "soma_group", "axon_group", "dendrite_group", "a", "b", "ab", "B2", "b2x7", "sec-1", "sec_1",
@@ -201,6 +205,272 @@ def predicate(case, res):
     return bad
 
 
+# ------------------------------------------------------------- histories on one Cell object
+def reaches(groups, a, b):
+    """does group a (transitively) include group b?"""
+    seen, todo = set(), [a]
+    while todo:
+        x = todo.pop()
+        if x in seen:
+            continue
+        seen.add(x)
+        g = first(groups, x)
+        if g:
+            todo.extend(g["includes"])
+    return b in seen
+
+
+def ref_optimise_one(segs, groups, gid):
+    """what optimising SHOULD do, used only to keep the generator's mirror of the cell plausible"""
+    g = first(groups, gid)
+    ms = list(dict.fromkeys(g["members"]))
+    incs = sorted(dict.fromkeys(g["includes"]))
+    g["members"], g["includes"] = ms, incs
+    if ms and incs:
+        cov = set()
+        for i in incs:
+            cov |= closure(segs, groups, i)
+        g["members"] = sorted(m for m in ms if m not in cov)
+
+
+def gen_edit(rng, segs, mirror):
+    r = rng.random()
+    with_inc = [g for g in mirror if g["includes"]]
+    if r < 0.45:
+        # move a segment out of a group into another one - preferably into a group that includes it
+        if with_inc and rng.random() < 0.8:
+            b = rng.choice(with_inc)
+            below = [g for g in mirror if g["id"] != b["id"] and reaches(mirror, b["id"], g["id"]) and g["members"]]
+            a = rng.choice(below) if below else None
+        else:
+            a = rng.choice([g for g in mirror if g["members"]] or [None])
+            b = rng.choice(mirror)
+        if a is None or a["id"] == b["id"]:
+            return None
+        sg = rng.choice(a["members"])
+        a["members"] = [m for m in a["members"] if m != sg]
+        b["members"].append(sg)
+        return {"do": "move_member", "from": a["id"], "to": b["id"], "seg": sg}
+    if r < 0.58:
+        g = rng.choice(mirror)
+        sg = rng.choice(segs or [0])
+        g["members"].append(sg)
+        return {"do": "add_member", "id": g["id"], "seg": sg}
+    if r < 0.70:
+        g = rng.choice([g for g in mirror if g["members"]] or [None])
+        if g is None:
+            return None
+        sg = rng.choice(g["members"])
+        g["members"] = [m for m in g["members"] if m != sg]
+        return {"do": "remove_member", "id": g["id"], "seg": sg}
+    if r < 0.82:
+        g, h = rng.choice(mirror), rng.choice(mirror)
+        if g["id"] == h["id"] or reaches(mirror, h["id"], g["id"]):
+            return None
+        g["includes"].append(h["id"])
+        return {"do": "add_include", "id": g["id"], "inc": h["id"]}
+    if r < 0.92:
+        if not with_inc:
+            return None
+        g = rng.choice(with_inc)
+        h = rng.choice(g["includes"])
+        g["includes"] = [i for i in g["includes"] if i != h]
+        return {"do": "remove_include", "id": g["id"], "inc": h}
+    free = [n for n in GROUP_NAMES if n != "all" and first(mirror, n) is None]
+    if not free:
+        return None
+    ng = {"id": rng.choice(free), "members": [rng.choice(segs or [0]) for _ in range(rng.randint(0, 3))],
+          "includes": [rng.choice(mirror)["id"] for _ in range(rng.randint(0, 2))], "nlex": None}
+    mirror.append(ng)
+    return {"do": "add_group", "id": ng["id"], "members": list(ng["members"]), "includes": list(ng["includes"])}
+
+
+def gen_history(rng):
+    while True:
+        c = gen_case(rng, big=(rng.random() < 0.2))
+        if c["kind"] == "acyclic" and len(c["groups"]) >= 2 and well_formed(c) and "all" not in \
+                [i for g in c["groups"] for i in g["includes"]]:
+            break
+    segs = c["segs"]
+    mirror = copy.deepcopy(c["groups"])
+    steps = []
+
+    def opt(one):
+        if one:
+            gid = rng.choice([g for g in mirror if g["includes"]] or mirror)["id"]
+            steps.append({"do": "optimise_one", "id": gid})
+            ref_optimise_one(segs, mirror, gid)
+        else:
+            steps.append({"do": "optimise_all"})
+            for g in list(mirror):
+                ref_optimise_one(segs, mirror, g["id"])
+    if rng.random() < 0.75:
+        opt(False)
+    for _ in range(rng.randint(1, 4)):
+        for _e in range(rng.randint(1, 3)):
+            e = gen_edit(rng, segs, mirror)
+            if e:
+                steps.append(e)
+        one = rng.random() < 0.65
+        opt(one)
+        if rng.random() < 0.3:
+            steps.append(dict(steps[-1]))  # the same call again: twice = once
+    return {"segs": segs, "groups": c["groups"], "steps": steps, "kind": "history"}
+
+
+HISTORY_CORPUS = [
+    # full pass, then a segment is moved from an included group into the including group, then only
+    # that group is optimised (any per-pass state kept on the cell is stale by then)
+    {"segs": [0, 1, 2, 3, 4], "kind": "corpus:history-move-then-optimise-one",
+     "groups": [{"id": "p", "members": [1, 2], "includes": [], "nlex": None},
+                {"id": "b", "members": [2, 3], "includes": ["p"], "nlex": None},
+                {"id": "e", "members": [0, 4], "includes": ["b"], "nlex": None}],
+     "steps": [{"do": "optimise_all"}, {"do": "move_member", "from": "p", "to": "b", "seg": 2},
+               {"do": "optimise_one", "id": "b"}, {"do": "optimise_one", "id": "b"}, {"do": "optimise_all"}]},
+    {"segs": [0, 1, 2], "kind": "corpus:history-include-removed",
+     "groups": [{"id": "a", "members": [0, 1], "includes": [], "nlex": None},
+                {"id": "g", "members": [1, 2], "includes": ["a"], "nlex": None}],
+     "steps": [{"do": "optimise_all"}, {"do": "remove_include", "id": "g", "inc": "a"}, {"do": "add_member", "id": "g", "seg": 1},
+               {"do": "add_group", "id": "z", "members": [1], "includes": []}, {"do": "add_include", "id": "g", "inc": "z"},
+               {"do": "remove_member", "id": "z", "seg": 1}, {"do": "optimise_one", "id": "g"}]},
+]
+
+
+def canon_groups(gs):
+    return [(g["id"], sorted(g["members"]), sorted(g["includes"]), g["nlex"]) for g in gs]
+
+
+def history_predicate(h, recs):
+    """violations of C14 along a history: (key, what, expected, observed, index of the failing step)"""
+    bad = []
+    segs = h["segs"]
+    for k, (st, rec) in enumerate(zip(h["steps"], recs)):
+        if st["do"] not in ("optimise_all", "optimise_one"):
+            continue
+        before = rec["before"]
+        case0 = {"segs": segs, "groups": before["groups"]}
+        if not well_formed(case0):
+            continue
+        after = rec["after"]
+        if "groups" not in after:
+            bad.append(("C14:history:optimise-raises", "%s raised after edits" % st["do"], "returns", after, k))
+            continue
+        if rec.get("new_attributes"):
+            bad.append(("C14:optimise-leaves-state-on-cell", "%s left new attribute(s) %s on the cell"
+                        % (st["do"], rec["new_attributes"]), "no new attribute", rec["new_attributes"], k))
+        want = {g["id"]: closure(segs, before["groups"], g["id"]) for g in before["groups"]}
+        for g, r0, r1 in zip(before["groups"], before["resolved"], after["resolved"]):
+            if not isinstance(r0, list) or set(r0) != want[g["id"]] or len(set(r0)) != len(r0):
+                bad.append(("C14:history:resolve-not-closure", "resolved set of %r is not the closure of the cell's current groups"
+                            % g["id"], sorted(want[g["id"]]), r0, k))
+            elif not isinstance(r1, list) or set(r1) != want[g["id"]]:
+                bad.append(("C14:history:optimise-changes-resolved-set",
+                            "%s changed the resolved set of %r (cell edited since an earlier optimise)" % (json.dumps(st), g["id"]),
+                            sorted(want[g["id"]]), r1, k))
+        targets = [g["id"] for g in after["groups"]] if st["do"] == "optimise_all" else [st["id"]]
+        for g in after["groups"]:
+            if g["id"] not in targets:
+                continue
+            if len(set(g["members"])) != len(g["members"]) or len(set(g["includes"])) != len(g["includes"]):
+                bad.append(("C14:history:duplicate-left", "group %r has a duplicate member/include after %s" % (g["id"], st["do"]),
+                            "no duplicate", g, k))
+            sup = set()
+            for i in g["includes"]:
+                sup |= closure(segs, after["groups"], i)
+            cov = [m for m in g["members"] if m in sup]
+            if cov:
+                bad.append(("C14:history:covered-member-kept", "group %r keeps %s although an include supplies it" % (g["id"], cov),
+                            "no covered member", g["members"], k))
+        fresh = rec.get("fresh")
+        if isinstance(fresh, dict) and "groups" in fresh and canon_groups(fresh["groups"]) != canon_groups(after["groups"]):
+            bad.append(("C14:history:optimise-depends-on-earlier-calls",
+                        "%s gives another result on this cell than on a freshly built equal cell" % json.dumps(st),
+                        canon_groups(fresh["groups"]), canon_groups(after["groups"]), k))
+        if k + 1 < len(recs) and h["steps"][k + 1] == st and "groups" in recs[k + 1]["after"] \
+                and canon_groups(recs[k + 1]["after"]["groups"]) != canon_groups(after["groups"]):
+            bad.append(("C14:history:optimise-not-idempotent", "the same call again changes the groups",
+                        canon_groups(after["groups"]), canon_groups(recs[k + 1]["after"]["groups"]), k + 1))
+    return bad
+
+
+def shrink_history(ck, h, key, deadline):
+    cur = {"segs": h["segs"], "groups": h["groups"], "steps": list(h["steps"])}
+    for _ in range(20):
+        if time.time() > deadline:
+            break
+        cands = [dict(cur, steps=cur["steps"][:j] + cur["steps"][j + 1:]) for j in range(len(cur["steps"]))]
+        cands += [dict(cur, groups=[dict(g, members=g["members"][:j] + g["members"][j + 1:]) if gi == k else g
+                                    for gi, g in enumerate(cur["groups"])])
+                  for k, g0 in enumerate(cur["groups"]) for j in range(len(g0["members"]))]
+        if not cands:
+            break
+        rs = ck.impl("c14_impl.py", {"histories": cands[:200]}, timeout=300)["histories"]
+        nxt = None
+        for c, r in zip(cands, rs):
+            if any(b[0] == key for b in history_predicate(c, r)):
+                nxt = c
+                break
+        if nxt is None:
+            break
+        cur = nxt
+    return cur
+
+
+# ------------------------------------------------------------- source check (fail closed)
+ALLOWED_SELF = {"morphology", "id", "get_segment_group", "get_all_segments_in_group", "optimise_segment_group"}
+METHODS = ["get_all_segments_in_group", "get_segment_group", "optimise_segment_groups", "optimise_segment_group"]
+REFLECT = {"getattr", "setattr", "hasattr", "delattr", "vars", "globals", "locals", "__import__", "eval", "exec"}
+
+
+def source_check(ck):
+    """the property is about the cell's CURRENT groups: the four methods may read nothing of the cell but
+    self.morphology (and self.id for messages), call only each other, use no reflection on self, no
+    module-level mutable object, no mutable default argument.  Anything else is a broken obligation."""
+    path = os.path.join(REPO, "neuroml", "nml", "nml.py")
+    try:
+        tree = ast.parse(open(path).read())
+    except Exception as e:  # noqa
+        ck.oblige("source:nml.py:parses", False, str(e), kind="source")
+        return
+    mod_data = set()
+    cell = None
+    for node in tree.body:
+        if isinstance(node, (ast.Assign, ast.AnnAssign, ast.AugAssign)):
+            for t in (node.targets if isinstance(node, ast.Assign) else [node.target]):
+                for n in ast.walk(t):
+                    if isinstance(n, ast.Name):
+                        mod_data.add(n.id)
+        if isinstance(node, ast.ClassDef) and node.name == "Cell":
+            cell = node
+    if cell is None:
+        ck.oblige("source:class-Cell-found", False, "no class Cell in nml.py", kind="source")
+        return
+    defs = {}
+    for n in cell.body:
+        if isinstance(n, ast.FunctionDef):
+            defs[n.name] = n          # the last definition wins, as in Python
+    for m in METHODS:
+        fn = defs.get(m)
+        if fn is None:
+            ck.oblige("source:Cell.%s:reads-only-the-groups" % m, False, "method not found", kind="source")
+            continue
+        problems = []
+        for d in fn.args.defaults + [d for d in fn.args.kw_defaults if d is not None]:
+            if isinstance(d, (ast.List, ast.Dict, ast.Set, ast.Call)):
+                problems.append("mutable default argument at line %d" % d.lineno)
+        for n in ast.walk(fn):
+            if isinstance(n, ast.Attribute) and isinstance(n.value, ast.Name) and n.value.id == "self":
+                if n.attr not in ALLOWED_SELF:
+                    problems.append("self.%s at line %d" % (n.attr, n.lineno))
+            elif isinstance(n, ast.Call) and isinstance(n.func, ast.Name) and n.func.id in REFLECT:
+                problems.append("%s(...) at line %d" % (n.func.id, n.lineno))
+            elif isinstance(n, (ast.Global, ast.Nonlocal)):
+                problems.append("global/nonlocal at line %d" % n.lineno)
+            elif isinstance(n, ast.Name) and isinstance(n.ctx, ast.Load) and n.id in mod_data:
+                problems.append("module-level object %s at line %d" % (n.id, n.lineno))
+        ck.oblige("source:Cell.%s:reads-only-the-groups" % m, not problems, "; ".join(problems[:6]), kind="source")
+
+
 # ----------------------------------------------------------------------------- Coq terms
 def q_res(r):
     if r is None:
@@ -239,6 +509,23 @@ def cases_v(cases, results):
     return (HEADER + "Definition cases : list c14_case := [\n  " + body + "\n].\n"
             "Eval vm_compute in (mismatches true cases).\n"
             "Eval vm_compute in (mismatches false cases).\n")
+
+
+def q_step(segs, st, rec):
+    after = rec["after"]
+    one = coq_opt(st["id"] if st["do"] == "optimise_one" else None, coq_str)
+    if "groups" in after:
+        aft, res_after = q_groups(after["groups"]), coq_list([q_res(x) for x in after["resolved"]])
+    else:
+        aft, res_after = q_groups(after), "[]"
+    return "(mkStep %s %s %s %s %s %s)" % (
+        coq_list([coq_z(x) for x in segs]), coq_list([q_group(g) for g in rec["before"]["groups"]]), one,
+        coq_list([q_res(x) for x in rec["before"]["resolved"]]), aft, res_after)
+
+
+def steps_v(terms):
+    return (HEADER + "Definition steps : list c14_step := [\n  " + ";\n  ".join(terms) + "\n].\n"
+            "Eval vm_compute in (step_mismatches steps).\n")
 
 
 def parse_idx(s):
@@ -308,12 +595,20 @@ def run(ck):
                       "two include ids with equal natsort keys (a01 / a1) are not generated: their order comes from set "
                       "iteration over object addresses"]
     ck.gate_static()
+    source_check(ck)
 
-    n = ck.n(1000, 10000)
+    n = ck.n(500, 8000)
     cases = [dict(c) for c in CORPUS]
     while len(cases) < n:
         cases.append(gen_case(ck.rng, big=(ck.rng.random() < 0.3)))
-    results = ck.impl("c14_impl.py", {"cases": [strip(c) for c in cases]}, timeout=600)["results"]
+    nh = ck.n(160, 2500)
+    hists = [copy.deepcopy(h) for h in HISTORY_CORPUS]
+    while len(hists) < nh:
+        hists.append(gen_history(ck.rng))
+    out = ck.impl("c14_impl.py", {"cases": [strip(c) for c in cases],
+                                  "histories": [{"segs": h["segs"], "groups": h["groups"], "steps": h["steps"]} for h in hists]},
+                  timeout=900)
+    results, hresults = out["results"], out["histories"]
 
     # -- correspondence: Coq does the diff
     matches_v0 = True
@@ -335,6 +630,28 @@ def run(ck):
         else:
             matches_v0 = False
     ck.extra["implementation_matches_prefix_model_v0"] = bool(matches_v0 and any_bad)
+
+    # -- histories: every optimising call against the model applied to the cell's state just before it
+    terms, owners = [], []
+    for hi, (h, recs) in enumerate(zip(hists, hresults)):
+        for k, (st, rec) in enumerate(zip(h["steps"], recs)):
+            if st["do"] in ("optimise_all", "optimise_one"):
+                terms.append(q_step(h["segs"], st, rec))
+                owners.append((hi, k))
+    for k in range(0, len(terms), 500):
+        ok, res, out = ck.coq_eval("Steps_C14_%d.v" % (k // 500), steps_v(terms[k:k + 500]))
+        good = ok and len(res) == 1 and parse_idx(res[0]) == []
+        ck.oblige("Steps_C14_%d.v:model_agrees_with_implementation_along_histories" % (k // 500), good,
+                  detail=(out[-1500:] if not ok else "differing step indices: %s" % (res[0] if res else "no result")),
+                  kind="correspondence")
+        if ok and len(res) == 1:
+            for i in parse_idx(res[0])[:10]:
+                any_bad = True
+                hi, sk = owners[k + i]
+                ck.disagree("Groups.optimise_group/optimise_all on the current state",
+                            {"segs": hists[hi]["segs"], "groups": hists[hi]["groups"], "steps": hists[hi]["steps"][:sk + 1]},
+                            "see model (bin/check C14 --replay)", hresults[hi][sk]["after"], note="step %d of history %d" % (sk, hi))
+    ck.extra["history_optimise_calls_compared"] = len(terms)
 
     # -- the theorems
     ck.compile_props()
@@ -359,8 +676,29 @@ def run(ck):
         for key, what, exp, obs in predicate(c, r):
             if key not in seen:
                 seen[key] = (c, what, exp, obs)
-    import time
-    deadline = time.time() + ck.n(25, 150)   # shrinking is a convenience: bounded
+    hseen = {}
+    for h, recs in zip(hists, hresults):
+        ck.tally(h["kind"])
+        for st in h["steps"]:
+            ck.tally("step:" + st["do"])
+        nopt = sum(1 for st in h["steps"] if st["do"].startswith("optimise"))
+        ck.count(1, nontrivial_key=json.dumps(["history", [st["do"] for st in h["steps"]]]) if nopt >= 2 else None)
+        for key, what, exp, obs, k in history_predicate(h, recs):
+            hseen.setdefault(key, (h, what, exp, obs, k))
+    deadline = time.time() + ck.n(20, 150)   # shrinking is a convenience: bounded
+    for key, (h, what, exp, obs, k) in hseen.items():
+        small = {"segs": h["segs"], "groups": h["groups"], "steps": h["steps"][:k + 1]}
+        try:
+            cand = shrink_history(ck, small, key, deadline)
+            r = ck.impl("c14_impl.py", {"histories": [cand]}, timeout=120)["histories"][0]
+            hit = [b for b in history_predicate(cand, r) if b[0] == key]
+            if hit:
+                small = cand
+                _, what, exp, obs, _k = hit[0]
+        except Exception:  # shrinking is best effort
+            pass
+        ck.witness(key, what, input=small, expected=exp, observed=obs,
+                   broken="Steps_C14:model_agrees_with_implementation_along_histories" if any_bad else None)
     for key, (c, what, exp, obs) in seen.items():
         small = c
         try:
@@ -382,6 +720,15 @@ def replay(ck, data):
     if not case:
         print(json.dumps(data, indent=1)[:4000])
         return 0
+    if "steps" in case:
+        recs = ck.impl("c14_impl.py", {"histories": [case]}, timeout=120)["histories"][0]
+        terms = [q_step(case["segs"], st, rec) for st, rec in zip(case["steps"], recs) if st["do"].startswith("optimise")]
+        ok, res, out = ck.coq_eval("Replay_C14.v", steps_v(terms)) if terms else (True, [], "")
+        bad = history_predicate(case, recs)
+        print(json.dumps({"input": case, "implementation": recs, "model_step_mismatches": res,
+                          "property_violations": [{"key": b[0], "what": b[1], "expected": b[2], "observed": b[3], "step": b[4]}
+                                                  for b in bad]}, indent=1, default=str)[:10000])
+        return 1 if bad else 0
     r = ck.impl("c14_impl.py", {"cases": [strip(case)]}, timeout=120)["results"][0]
     ok, res, out = ck.coq_eval("Replay_C14.v", HEADER + "Definition c := %s.\n" % q_case(case, r) +
                                "Eval vm_compute in (model_resolved (c_segs c) (c_groups c)).\n"
